@@ -12,6 +12,8 @@
 #define VF_OWN_EVENT_HANDLER
 #include "../common/factor.h"
 #include "shapes.h"
+#include <sys/prctl.h>
+#include "../mcproto/proto_model.h"
 
 #define MAXT 6
 #define MAXPTS 3000
@@ -27,6 +29,7 @@ typedef struct {
     int in_exec; int cur_len; unsigned char cur_prefix[MAXPTS];
     long executions, choice_points, steps, violations, lost_subtrees, maxpts, deaths;
     long sched_rets, regular_panels, pipelined_panels, waits_blocked;
+    long conf_execs_ok, conf_events, conf_divergences, conf_execs_unmodelled; char conf_msg[300];
     unsigned long long outcomes[256]; int noutc;
     unsigned long long traces[1 << 21]; long ntraces;
     int death_kind; char death_msg[400];
@@ -115,8 +118,65 @@ static void *tramp(void *p) {
     return NULL;
 }
 
+/* ------------------------------------------------------------------ conformance: replay the execution on the protocol model */
+static int MODEL_ENABLED = 1;
+static pm_ctx_t MC; static pm_state_t MS; static int model_on, model_div, model_events; static int nsuper_leader[64];
+static void model_diverge(const char *fmt, ...) {
+    if (model_div) return; model_div = 1; X->conf_divergences++;
+    if (!X->conf_msg[0]) { va_list ap; va_start(ap, fmt); vsnprintf(X->conf_msg, sizeof X->conf_msg, fmt, ap); va_end(ap); }
+}
+static pxgstrf_shared_t *SH; static superlumt_options_t *OPT; static int MN;
+static void model_compare(const char *when) {
+    int n = MN; if (!model_on || model_div) return;
+    for (int i = 0; i <= n; i++) {
+        if (MS.state[i] != (signed char)SH->pan_status[i].state) { model_diverge("%s: state[%d] model=%d real=%d", when, i, MS.state[i], (int)SH->pan_status[i].state); return; }
+        if (i < n && MS.ukids[i] != (signed char)SH->pan_status[i].ukids) { model_diverge("%s: ukids[%d] model=%d real=%d", when, i, MS.ukids[i], (int)SH->pan_status[i].ukids); return; }
+        if (i < n && SH->pan_status[i].size > 0 && MS.fb[i] != (signed char)SH->fb_cols[i]) { model_diverge("%s: fb_cols[%d] model=%d real=%d", when, i, MS.fb[i], (int)SH->fb_cols[i]); return; }
+    }
+    for (int i = 0; i < n; i++) if (MS.spin[i] != (signed char)SH->spin_locks[i]) { model_diverge("%s: spin_locks[%d] model=%d real=%d", when, i, MS.spin[i], (int)SH->spin_locks[i]); return; }
+    if (MS.head != SH->taskq.head || MS.tail != SH->taskq.tail || MS.count != SH->taskq.count) { model_diverge("%s: queue head/tail/count model=%d/%d/%d real=%d/%d/%d", when, MS.head, MS.tail, MS.count, (int)SH->taskq.head, (int)SH->taskq.tail, (int)SH->taskq.count); return; }
+    for (int i = MS.head; i < MS.tail; i++) if (MS.q[i] != (signed char)SH->taskq.queue[i]) { model_diverge("%s: queue[%d] model=%d real=%d", when, i, MS.q[i], (int)SH->taskq.queue[i]); return; }
+    if (MS.tasks != SH->tasks_remain) { model_diverge("%s: tasks_remain model=%d real=%d", when, MS.tasks, (int)SH->tasks_remain); return; }
+}
+static void model_start(void) {
+    model_on = 0; model_div = 0; model_events = 0;
+    if (!MODEL_ENABLED) return;
+    if (!SH || MN > PM_NMAX || NPROC > PM_PMAX || MN < 1) { X->conf_execs_unmodelled++; return; }
+    int par[PM_NMAX + 1]; for (int i = 0; i < MN; i++) par[i] = (int)OPT->etree[i];
+    pm_init(&MC, MN, NPROC, (int)OPT->panel_size, (int)OPT->relax, par, &MS);
+    for (int i = 0; i < 64; i++) nsuper_leader[i] = -1;
+    model_on = 1; model_compare("initial state");
+}
+static void model_stop(void) { if (model_on) { if (!model_div) { int allexit = 1; for (int i = 0; i < NPROC; i++) if (MS.w[i].ph != PH_EXIT) allexit = 0; if (!allexit) model_diverge("end of execution: a model worker has not reached EXIT"); } if (!model_div) X->conf_execs_ok++; X->conf_events += model_events; pm_free(&MC); model_on = 0; } }
+/* one implementation event of worker pnum -> the corresponding model step */
+static void model_event(int kind, long a, long b, long c) {
+    if (!model_on || model_div) return;
+    int wi = (int)a; pm_wk_t *w;
+    switch (kind) {
+    case VE_LOOP_CHECK: if (wi < 0 || wi >= NPROC) return; w = &MS.w[wi]; model_compare("before poll"); if (w->ph != PH_CHECK) { model_diverge("poll of tasks_remain by worker %d in model phase %d", wi, w->ph); return; } pm_step_check(&MS, wi); model_events++; break;
+    case VE_SCHED_RET: { w = &MS.w[wi]; if (w->ph != PH_SCHED) { model_diverge("scheduler call by worker %d in model phase %d", wi, w->ph); return; } int mb; int mj = pm_step_sched(&MC, &MS, wi, &mb); model_events++;
+        if (mj != (int)b || (mj != EMPTY && mb != (int)c)) { model_diverge("scheduler: model hands (panel %d, bcol %d) to worker %d, implementation (%ld, %ld)", mj, mb, wi, b, c); return; } model_compare("after scheduler"); break; }
+    case VE_MARK_BUSY: w = &MS.w[wi]; model_compare("before mark_busy"); if (w->ph != PH_MARK || w->jcol != (int)b) { model_diverge("mark_busy_descends(panel %ld) by worker %d in model phase %d panel %d", b, wi, w->ph, w->jcol); return; } pm_step_mark(&MC, &MS, wi); model_events++; break;
+    case VE_MARK_BUSY_END: w = &MS.w[wi]; if (w->bcol != (int)c) model_diverge("mark_busy_descends: adjusted bcol model=%d real=%ld", w->bcol, c); break;
+    case VE_FLAG_CHECK: if (wi < 0) return; w = &MS.w[wi]; model_compare("after flag wait"); if (w->ph != PH_WAIT || w->kcol != (int)b) { model_diverge("worker %d waits for column %ld; model phase %d expects column %d", wi, b, w->ph, w->kcol); return; } pm_step_wait(&MC, &MS, wi, NULL, NULL); model_events++; break;
+    case VE_NEWSUPER: w = &MS.w[wi]; if ((int)c >= 0 && (int)c < 64) nsuper_leader[(int)c] = (int)b; if (w->ph == PH_RELAX_SUPER) { if (w->jcol != (int)b) { model_diverge("relaxed supernode: model panel %d real %ld", w->jcol, b); return; } pm_step_relax_super(&MC, &MS, wi); model_events++; } break;
+    case VE_COL_SUPER: { w = &MS.w[wi]; int col = (int)b; if (w->ph != PH_COLSUPER || w->jcol + w->ci != col) { model_diverge("column %d enters a supernode (worker %d); model phase %d column %d", col, wi, w->ph, w->jcol + w->ci); return; }
+        int leader = ((int)c >= 0 && (int)c < 64) ? nsuper_leader[(int)c] : -1; int join = (leader >= 0 && leader != col);
+        if (join && (!pm_can_join(&MC, &MS, col) || MS.supno[col - 1] != leader)) { model_diverge("column %d joins supernode of column %d; the model does not allow that join", col, leader); return; }
+        pm_step_colsuper(&MC, &MS, wi, join); model_events++; break; }
+    case VE_RELEASE: w = &MS.w[wi]; model_compare("before release");
+        if (w->ph == PH_RELAX_REL && w->jcol == (int)b) pm_step_relax_release(&MC, &MS, wi);
+        else if (w->ph == PH_COLREL && w->jcol + w->ci == (int)b) pm_step_colrelease(&MC, &MS, wi);
+        else { model_diverge("release of column %ld by worker %d in model phase %d (panel %d, ci %d)", b, wi, w->ph, w->jcol, w->ci); return; }
+        model_events++; break;
+    case VE_PANEL_DONE: w = &MS.w[wi]; model_compare("before DONE"); if (w->ph != PH_DONE || w->jcol != (int)b) { model_diverge("panel %ld DONE by worker %d in model phase %d", b, wi, w->ph); return; } pm_step_done(&MS, wi); model_events++; break;
+    case VE_THREAD_EXIT: w = &MS.w[wi]; if (w->ph != PH_EXIT) model_diverge("worker %d leaves its loop in model phase %d", wi, w->ph); break;
+    default: break;
+    }
+    for (int k = 1; k < 8; k++) if (MC.viol[k]) { char sig[64]; snprintf(sig, sizeof sig, "%s:protocol-on-real-trace:I%d", k <= 3 ? "C03" : "C04", k); mon_viol(sig, "%s (protocol invariant evaluated on the model state reached by the REAL execution)", MC.first_msg[k]); MC.viol[k] = 0; }
+}
+
 /* ------------------------------------------------------------------ monitors (C03 / C04) */
-static pxgstrf_shared_t *SH; static superlumt_options_t *OPT; static int MN;      /* real structures of the running factorization */
 static int col_released[NMAX], col_pivoted[NMAX], col_begun[NMAX], col_stored[NMAX], panel_taken[NMAX], panel_done[NMAX], panel_owner[NMAX], col_owner[NMAX];
 static int thr_panel[MAXT], thr_phase[MAXT];          /* current panel of a worker; phase 0 none, 1 panel_bmod, 2 inner columns */
 static unsigned thr_applied[MAXT];                    /* descendant columns whose update was applied to the current panel (panel_bmod phase) */
@@ -242,7 +302,7 @@ int vf_thread_create(pthread_t *t, const pthread_attr_t *a, void *(*fn)(void *),
     if (nth >= MAXT) { fprintf(stderr, "too many threads\n"); _exit(96); }
     int id = nth++; th[id].used = 1; th[id].finished = 0; th[id].op = OP_NONE; th[id].fn = fn; th[id].arg = arg; pthread_cond_init(&th[id].cv, NULL);
     threads_created++;
-    if (!SH) { FN(p,gstrf_threadarg_t) *ta = arg; SH = ta->pxgstrf_shared; OPT = ta->superlumt_options; MN = SH->A->ncol; }
+    if (!SH) { FN(p,gstrf_threadarg_t) *ta = arg; SH = ta->pxgstrf_shared; OPT = ta->superlumt_options; MN = SH->A->ncol; model_start(); }
     *t = (pthread_t)(long)id;
     pthread_attr_t at; pthread_attr_init(&at); pthread_attr_setstacksize(&at, 1 << 20);
     if (pthread_create(&th[id].th, &at, tramp, (void *)(long)id)) { fprintf(stderr, "pthread_create failed\n"); _exit(96); }
@@ -257,12 +317,12 @@ int vf_thread_join(pthread_t t, void **st) {
 int vf_mutex_init(pthread_mutex_t *m, const void *a) { (void)m; (void)a; return 0; }
 int vf_mutex_destroy(pthread_mutex_t *m) { (void)m; return 0; }
 int vf_mutex_lock(pthread_mutex_t *m) {
-    if (nth <= 1) return 0;
+    if (nth <= 1 || pm_in_shadow_call) return 0;
     pthread_mutex_lock(&big); th[me].op = OP_LOCK; th[me].obj = m; point(); th[me].op = OP_NONE;
     int s = mslot(m); if (mtx_owner[s] >= 0) die_with(3, "scheduler error: mutex granted twice"); mtx_owner[s] = me;
     pthread_mutex_unlock(&big); return 0;
 }
-int vf_mutex_unlock(pthread_mutex_t *m) { if (nth <= 1) return 0; pthread_mutex_lock(&big); mtx_owner[mslot(m)] = -1; pthread_mutex_unlock(&big); return 0; }
+int vf_mutex_unlock(pthread_mutex_t *m) { if (nth <= 1 || pm_in_shadow_call) return 0; pthread_mutex_lock(&big); mtx_owner[mslot(m)] = -1; pthread_mutex_unlock(&big); return 0; }
 
 static unsigned long long sched_state_hash(void) {
     unsigned long long h = 0; if (!SH) return 0;
@@ -270,6 +330,7 @@ static unsigned long long sched_state_hash(void) {
     return h;
 }
 void slu_mt_verif_ev(int kind, long a, long b, long c) {
+    if (pm_in_shadow_call) return;
     vf_slot_event(kind, a, b, c);
     if (nth <= 1) return;
     pthread_mutex_lock(&big);
@@ -278,21 +339,22 @@ void slu_mt_verif_ev(int kind, long a, long b, long c) {
     switch (kind) {
     case VE_SCHED_RET: {            /* inside the critical section: an event, not a scheduling point */
         static unsigned long long last_h; unsigned long long h = sched_state_hash();
-        mon_sched_ret((int)a, (int)b, (int)c);
+        mon_sched_ret((int)a, (int)b, (int)c); model_event(kind, a, b, c);
         if (h != last_h || (int)b != EMPTY) version++;
         last_h = h; break; }
     case VE_FLAG_CHECK:
         if (*(volatile int_t *)c) X->waits_blocked++;
-        th[me].op = OP_FLAG; th[me].obj = (void *)c; point(); th[me].op = OP_NONE; break;
-    case VE_LOOP_CHECK: point(); th[me].lc_version = version; break;
+        th[me].op = OP_FLAG; th[me].obj = (void *)c; point(); th[me].op = OP_NONE; model_event(kind, a, b, c); break;
+    case VE_LOOP_CHECK: point(); th[me].lc_version = version; model_event(kind, a, b, c); break;
     case VE_SCHED_EMPTY:
         if (version == th[me].lc_version) { th[me].op = OP_POLL; th[me].poll_version = version; point(); th[me].op = OP_NONE; } else point();
         break;
     case VE_PRESET_MAP: case VE_DYN_SETMAP: break;
-    case VE_THREAD_EXIT: mon_event(kind, a, b, c); point(); break;
+    case VE_THREAD_EXIT: mon_event(kind, a, b, c); model_event(kind, a, b, c); point(); break;
     default:
         point();                    /* the switch happens BEFORE the hooked statement executes */
         mon_event(kind, a, b, c);   /* ... and the monitors see the event when it is really about to happen */
+        model_event(kind, a, b, c);
         break;
     }
     pthread_mutex_unlock(&big);
@@ -331,7 +393,7 @@ static fres_t RES;
 static void run_once(void) {
     sched_reset();
     run_factor_case(&TM, &CFG, &RES);
-    mon_final(RES.info);
+    mon_final(RES.info); model_stop();
     X->executions++; X->choice_points += npts; if (npts > X->maxpts) X->maxpts = npts;
     /* end-of-execution oracles */
     int n = TM.n; char msg[400];
@@ -426,6 +488,7 @@ int main(int argc, char **argv) {
         if ((p = strstr(src, "lwork="))) CFG.lwork = atol(p + 6);
     }
     CFG.nprocs = NPROC;
+    MODEL_ENABLED = arg_int(argc, argv, "--model", (!strcmp(PROP, "C03") || !strcmp(PROP, "C04")) ? 1 : 0);
     if (!shape_build(shape, vk, &TM)) { fprintf(stderr, "unknown shape %s\n", shape); return 2; }
     snprintf(CASE, sizeof CASE, "shape=%s vk=%d P=%d bound=%d w=%d rlx=%d ms=%d drv=%d dyn=%d rb=%d cb=%d ord=%d sym=%d u=%g lwork=%ld", shape, vk, NPROC, BOUND, CFG.w, CFG.relax, CFG.maxsuper, CFG.driver, CFG.dyn, CFG.rowblk, CFG.colblk, CFG.ordering, CFG.symmetric, CFG.u, CFG.lwork);
     DEADLINE = atof(arg_str(argc, argv, "--deadline", "1e18")); T0 = now_s();
@@ -449,7 +512,7 @@ int main(int argc, char **argv) {
     for (;;) {
         fflush(NULL);
         pid_t pid = fork();
-        if (pid == 0) { vf_install_fault_handlers(); explore(); fflush(NULL); _exit(0); }
+        if (pid == 0) { prctl(PR_SET_PDEATHSIG, SIGKILL); vf_install_fault_handlers(); explore(); fflush(NULL); _exit(0); }
         /* watchdog: an execution that makes no scheduling progress for 30 s (a loop between two hook points) is killed and reported */
         int st = 0; long last_steps = -1, last_exec = -1; double last_change = now_s(); int hung = 0;
         for (;;) {
@@ -458,9 +521,11 @@ int main(int argc, char **argv) {
             long s1 = X->steps, e1 = X->executions;
             if (s1 != last_steps || e1 != last_exec || !X->in_exec) { last_steps = s1; last_exec = e1; last_change = now_s(); }
             else if (now_s() - last_change > 30) { hung = 1; kill(pid, SIGKILL); waitpid(pid, &st, 0); break; }
+            if (now_s() - T0 > DEADLINE + 5) { hung = 2; kill(pid, SIGKILL); waitpid(pid, &st, 0); break; }   /* the explorer did not honour the deadline itself */
             usleep(20000);
         }
         vf_last_child = pid;
+        if (hung == 2) { complete = 0; break; }
         if (hung) {
             X->deaths++; X->violations++;
             char rep[1400]; int o = snprintf(rep, sizeof rep, "%s", CASE); sched_str(rep + o, sizeof rep - o, X->cur_prefix, X->cur_len);
@@ -468,7 +533,7 @@ int main(int argc, char **argv) {
             int seen = 0; for (int i = 0; i < X->nsig; i++) if (!strcmp(X->viol_sigs[i], "C04:hang")) seen = 1;
             if (want && !seen) { if (X->nsig < 32) snprintf(X->viol_sigs[X->nsig++], 96, "C04:hang"); out_violation(PROP, "C04:hang", rep, "the execution made no progress for 30 s between two scheduling points (endless loop inside the library)"); }
             X->lost_subtrees++; X->in_exec = 0;
-            if (X->deaths > 50) { complete = 0; break; }
+            if (X->deaths > 8) { complete = 0; break; }
             continue;
         }
         if (WIFEXITED(st) && WEXITSTATUS(st) == 0) { if (!X->done) complete = 0; break; }
@@ -491,9 +556,10 @@ int main(int argc, char **argv) {
         if (X->executions == 0 && X->deaths > 3) { complete = 0; break; }
         if (X->deaths > 2000) { complete = 0; break; }
     }
+    if (X->conf_divergences) { out_init(); fprintf(vf_out, "{\"type\":\"machinery\",\"property\":\"%s\",\"detail\":\"model/implementation divergence in %ld executions of %s: ", PROP, X->conf_divergences, CASE); for (char *p = X->conf_msg; *p; p++) if (*p != '"' && *p != '\\') fputc(*p, vf_out); fprintf(vf_out, "\"}\n"); }
     out_stats(PROP, "\"shape\":\"%s\",\"n\":%d,\"P\":%d,\"bound\":%d,\"cfg\":\"w=%d rlx=%d ms=%d drv=%d dyn=%d vk=%d\",\"complete\":%s,\"executions\":%ld,\"states\":%ld,\"transitions\":%ld,"
-              "\"choice_points\":%ld,\"max_points\":%ld,\"distinct_outcomes\":%d,\"violations\":%ld,\"deaths\":%ld,\"lost_subtrees\":%ld,\"scheduler_decisions\":%ld,\"regular_panels\":%ld,\"pipelined_panels\":%ld,\"blocked_waits\":%ld,\"wall_s\":%.2f",
+              "\"choice_points\":%ld,\"max_points\":%ld,\"distinct_outcomes\":%d,\"violations\":%ld,\"deaths\":%ld,\"lost_subtrees\":%ld,\"traces_validated\":%ld,\"conformance_events\":%ld,\"conformance_divergences\":%ld,\"executions_without_model\":%ld,\"scheduler_decisions\":%ld,\"regular_panels\":%ld,\"pipelined_panels\":%ld,\"blocked_waits\":%ld,\"wall_s\":%.2f",
               shape, TM.n, NPROC, BOUND, CFG.w, CFG.relax, CFG.maxsuper, CFG.driver, CFG.dyn, vk, (complete && !X->lost_subtrees) ? "true" : "false", X->executions, X->ntraces, X->steps,
-              X->choice_points, X->maxpts, X->noutc, X->violations, X->deaths, X->lost_subtrees, X->sched_rets, X->regular_panels, X->pipelined_panels, X->waits_blocked, now_s() - T0);
+              X->choice_points, X->maxpts, X->noutc, X->violations, X->deaths, X->lost_subtrees, X->conf_execs_ok, X->conf_events, X->conf_divergences, X->conf_execs_unmodelled, X->sched_rets, X->regular_panels, X->pipelined_panels, X->waits_blocked, now_s() - T0);
     return 0;
 }
